@@ -217,6 +217,11 @@ def gen_scenario(rng: random.Random, prog, *, crash=0.5, faults=0.0, paging=0.5,
     sc["api_latency"] = rng.choice([0.0, 0.0, 0.05, 0.3])
     sc["ext_order"] = rng.choice(["random", "timers_first", "ext_first"])
     sc["max_inv"] = 14
+    # the backend fires its timers late (its own latency, or a Lambda clock ahead of the backend's): derived generator, so that
+    # the draws of the scenarios that follow are unchanged
+    r2 = random.Random(sc["seed"] ^ 0x5A17)
+    if r2.random() < 0.25:
+        sc["timer_lag"] = r2.choice([0.4, 3.0, 45.0])
     return sc
 
 
@@ -245,6 +250,7 @@ BOUND = {
     "InvStart": {"C07"},
     "EnvTimer": {"C07", "C12"},
     "EnvExt": {"C14"},
+    "Log": {"C17"},
 }
 
 
